@@ -50,6 +50,7 @@ type Frame struct {
 	lets     map[string]Binding
 	topProps []string
 	atExit   bool
+	callStates map[string]*State
 }
 
 type Mode struct {
@@ -540,6 +541,14 @@ func (fr *Frame) modKeys(m string) []string {
 	switch {
 	case m == "wm" || m == "world" || m == "held" || m == "chclosed":
 		return []string{m}
+	case m == "spawn":
+		// the whole log of go statements
+		out := []string{"G:spawnn", "G:spawnfn"}
+		fr.vc.compSort["G:spawnn"], fr.vc.compSort["G:spawnfn"] = "Int", "(Array Int Int)"
+		for _, k := range fr.vc.eng.spawnArgKeys(fr.vc) {
+			out = append(out, k)
+		}
+		return out
 	case strings.HasPrefix(m, "H:") || strings.HasPrefix(m, "G:") || strings.HasPrefix(m, "MD:") || strings.HasPrefix(m, "MV:") || m == "MS":
 		return []string{m}
 	}
@@ -599,8 +608,9 @@ func (fr *Frame) instrModifies(ins ssa.Instruction, set map[string]bool) {
 	case *ssa.Defer:
 		fr.callModifies(&x.Call, set)
 	case *ssa.Go:
-		set["G:spawnn"] = true
-		set["G:spawned"] = true
+		for _, k := range fr.modKeys("spawn") {
+			set[k] = true
+		}
 		set["wm"] = true
 	case *ssa.RunDefers:
 		for _, d := range fr.allDefers() {
@@ -821,7 +831,7 @@ func (fr *Frame) step(ins ssa.Instruction, st *State, edges map[edgeKey]*State) 
 				fr.safety(st, "index", inb, x, "index out of range")
 			}
 			vc.assume(st.guard, inb)
-			fr.env[x] = app("eaddr", app("s.arr", s), mkAdd(app("s.off", s), idx))
+			fr.env[x] = app("selem", s, idx)
 		case *types.Pointer:
 			p := fr.val(x.X)
 			fr.env[x] = app("eaddr", p, idx)
@@ -880,9 +890,10 @@ func (fr *Frame) step(ins ssa.Instruction, st *State, edges map[edgeKey]*State) 
 	case *ssa.MakeSlice:
 		a := vc.alloc(st, x.Name())
 		ln, cp := fr.val(x.Len), fr.val(x.Cap)
-		fr.env[x] = vc.name(x.Name(), "Slice", app("mk-slice", a, leaf("0"), ln, cp))
+		sl := vc.name(x.Name(), "Slice", app("mk-slice", a, leaf("0"), ln, cp))
+		fr.env[x] = sl
 		et := x.Type().Underlying().(*types.Slice).Elem()
-		fr.zeroArray(st, et, a)
+		fr.zeroSlice(st, et, sl)
 		return true
 	case *ssa.MakeMap:
 		m := vc.alloc(st, x.Name())
@@ -1059,6 +1070,16 @@ func (fr *Frame) zeroInit(st *State, t types.Type, a *Term) {
 		return
 	}
 	vc.storeVal(st, t, a, vc.zero(t))
+}
+
+// zeroSlice assumes all elements of the fresh slice sl are zero.
+func (fr *Frame) zeroSlice(st *State, et types.Type, sl *Term) {
+	vc := fr.vc
+	var conj []*Term
+	fr.zeroCells(st, et, leaf("(selem "+sl.String()+" zi)"), &conj)
+	if len(conj) > 0 {
+		vc.lines = append(vc.lines, fmt.Sprintf("(assert (forall ((zi Int)) (! %s :pattern ((selem %s zi)))))", mkAnd(conj...), sl))
+	}
 }
 
 // zeroArray assumes all elements of the fresh array a are zero.
